@@ -1,9 +1,10 @@
-\* C16 / CallInject.tla -- (E, quick tier: arities 0, 3, 6) candidate repair: every avoidable exit path meets the reference, no panic anywhere
+\* C16 / CallInject.tla -- (E, quick tier: arities 0 and 6, three breakpoint sets) candidate repair: every avoidable exit path meets the reference, no panic anywhere
 CONSTANTS
     Variant = "fixed"
     DebugAsserts = TRUE
     FailKinds = {"err", "death", "stop"}
-    Arities = {0, 3, 6}
+    Arities = {0, 6}
+    BpChoice = "some"
     Emit = "none"
 SPECIFICATION Spec
 INVARIANTS AllPost NoPanic TypeOK
